@@ -24,6 +24,7 @@ type c17Case struct {
 	Chunked   bool   `json:"chunked"`
 	Resp      int    `json:"resp_class"`
 	WS        bool   `json:"ws,omitempty"` // WebSocket upgrade request (Connection: Upgrade, Upgrade: websocket)
+	SlowUp    bool   `json:"slow_upload,omitempty"` // chunked upload written in 6 slices 300 ms apart
 	PathClass string `json:"path_class"`
 	QClass    string `json:"query_class"`
 }
@@ -124,7 +125,7 @@ var c17Queries = []c17Q{
 
 var c17Methods = []string{"GET", "GET", "GET", "HEAD", "POST", "POST", "PUT", "PATCH", "DELETE", "OPTIONS"}
 
-var c17HdrClasses = []string{"plain", "plain", "dups", "unusual", "hop", "spoof-identity", "xff", "no-ua-ae", "cookies", "forwarded", "conditional", "big", "expect-continue"}
+var c17HdrClasses = []string{"plain", "plain", "dups", "unusual", "hop", "spoof-identity", "xff", "no-ua-ae", "cookies", "forwarded", "conditional", "big", "expect-continue", "dups-identical"}
 
 // c17Headers renders the header lines of a case (without Host, X-Vf-Id, X-Vf-Resp, body headers).
 func c17Headers(c *c17Case, sessionCookie string) [][2]string {
@@ -141,6 +142,11 @@ func c17Headers(c *c17Case, sessionCookie string) [][2]string {
 	switch c.HdrClass {
 	case "dups":
 		add("X-Dup", "1", "x-dup", "2", "X-DUP", "three, 3", "X-dup", "4", "Accept-Language", "en", "Accept-Language", "de;q=0.5", "Cache-Control", "no-cache", "Cache-Control", "no-store")
+	case "dups-identical":
+		// repeated lines with byte-identical values, mixed with distinct ones (documented folding keeps every value: a,a,b)
+		add("X-Tag", "a", "X-Tag", "a", "X-Tag", "b", "x-tag", "a", "X-Forwarded-For", "10.0.0.1", "X-Forwarded-For", "10.0.0.1", "X-Forwarded-For", "10.0.0.2",
+			"Accept-Language", "en", "Accept-Language", "en", "Via", "1.1 p", "Via", "1.1 p", "Via", "1.1 p", "X-Forwarded-Groups", "admins", "X-Forwarded-Groups", "admins",
+			"X-Custom-User", "same", "X-Custom-User", "same", "X-Same", "", "X-Same", "", "X-Quoted", `"x"`, "X-Quoted", `"x"`, "X-Quoted", `"y"`)
 	case "unusual":
 		add("X_Under_Score", "u", "x-lower", "l", "X-UPPER", "U", "X.Dot", "d", "X~Tilde!#$%&'*+^|", "t", "X-Empty", "", "X-Spaces", "  padded \t inner  ", "X-Utf8", "caf\xc3\xa9", "X-Punct", `a=b;c="d,e"\f`, "1-Digit", "1")
 	case "hop":
@@ -164,6 +170,10 @@ func c17Headers(c *c17Case, sessionCookie string) [][2]string {
 		}
 	case "big":
 		add("X-Big", strings.Repeat("0123456789", 400), "X-Big-2", strings.Repeat("z", 2000))
+	}
+	if !cookieDone && c.HdrClass == "dups-identical" {
+		add("Cookie", "pref=1", "Cookie", sessionCookie, "Cookie", "pref=1")
+		cookieDone = true
 	}
 	if !cookieDone {
 		add("Cookie", sessionCookie)
@@ -323,6 +333,7 @@ const (
 	c17RespTunnel  = 30 // 101 Switching Protocols, then a small dialogue through the tunnel
 	c17RespRefuse  = 31 // plain 403, no protocol switch
 	c17RespPlainOK = 32 // plain 200 with a body, no protocol switch
+	c17RespSlow    = 40 // headers at once, then 6 body chunks 300 ms apart (1.8 s in all)
 )
 
 var c17WSHdrClasses = []string{"plain", "plain", "xff", "cookies", "forwarded", "unusual", "dups", "spoof-identity"}
@@ -374,6 +385,18 @@ func c17CoreCases(s *c17Set, thorough bool) []*c17Case {
 	var out []*c17Case
 	for _, p := range paths {
 		out = append(out, &c17Case{Method: "GET", Path: p, Host: "proxy.test", HdrClass: "plain", BodyKind: "none"})
+	}
+	if s.Tiny {
+		var out []*c17Case
+		for i, b := range s.Bases {
+			out = append(out, &c17Case{Method: "GET", Path: c17PathFrom(b, "x"), Host: "proxy.test", HdrClass: "plain", BodyKind: "none"},
+				&c17Case{Method: []string{"GET", "POST"}[i%2], Path: c17PathFrom(b, "slow%2Fstream"), Query: "?n=6", QClass: "plain", Host: "proxy.test", HdrClass: "plain", BodyKind: "none", Resp: c17RespSlow},
+				&c17Case{Method: "POST", Path: c17PathFrom(b, "slow-upload"), Host: "proxy.test", HdrClass: "plain", BodyKind: "text", BodyLen: 6000, BodySeed: int64(i + 1), Chunked: true, SlowUp: true, Resp: 11})
+		}
+		return out
+	}
+	for i, b := range s.Bases { // repeated header lines with identical values
+		out = append(out, &c17Case{Method: []string{"GET", "POST", "HEAD"}[i%3], Path: c17PathFrom(b, "tags"), Host: "proxy.test", HdrClass: "dups-identical", BodyKind: "none", Resp: i % 2 * 11})
 	}
 	for i, b := range s.Bases { // WebSocket upgrades and upstream aborts
 		out = append(out, &c17Case{Method: "GET", Path: c17PathFrom(b, "socket%2Froom"), Query: "?x=1", QClass: "plain", Host: "proxy.test", HdrClass: "plain", BodyKind: "none", WS: true, Resp: c17RespTunnel + i%3})
